@@ -120,6 +120,36 @@ func (w *World) checkStep(prev, cur *snapshot, res StepResult, calls []simvk.Cal
 		fs.add("C13", "refused-"+op.Name+"-changed-"+kind, "op %q returned an error but state changed: %s", op.String(), detail)
 	}
 
+	// ---- C10: an operation that failed under an injected fault leaves reusable Allocation objects ----
+	targetSlots := func() []int {
+		switch op.Name {
+		case "alloc", "abuf", "aimg":
+			return []int{op.arg(0)}
+		case "cbuf", "cimg":
+			return []int{op.arg(1)}
+		case "allocn":
+			var out []int
+			for i := 0; i < op.arg(1); i++ {
+				out = append(out, op.arg(0)+i)
+			}
+			return out
+		}
+		return nil
+	}
+	if w.cur.faulted && w.cur.faultsFired > 0 && res.Kind == "err" {
+		if w.faultFailedSlots == nil {
+			w.faultFailedSlots = map[int]bool{}
+		}
+		for _, s := range targetSlots() {
+			w.faultFailedSlots[s] = true
+		}
+	} else if !w.cur.faulted && op.Name == "alloc" && w.faultFailedSlots[op.arg(0)] {
+		delete(w.faultFailedSlots, op.arg(0))
+		if res.Kind == "err" && res.Vk == simvk.ResUnknown {
+			fs.add("C10", "slot-not-reusable-after-failed-operation", "slot %d cannot be allocated into after an operation on it failed (op %q)", op.arg(0), op.String())
+		}
+	}
+
 	// ---- C10 / C13: harness belief vs Allocation objects ----
 	for _, s := range cur.lost {
 		fs.add("C06", "live-allocation-lost", "slot %d should be live but its Allocation is not allocated (after %q)", s, op.String())
@@ -185,8 +215,14 @@ func (w *World) checkStep(prev, cur *snapshot, res StepResult, calls []simvk.Cal
 			fs.add("C02", "noncoherent-atom-misaligned", "%s at offset %d in host-visible non-coherent type %d is not aligned to nonCoherentAtomSize %d", name(o), o.off, o.typ, atom)
 		}
 	}
-	for mem, list := range byMem {
-		sort.Slice(list, func(i, j int) bool { return list[i].off < list[j].off })
+	memKeys := make([]int, 0, len(byMem))
+	for mem := range byMem {
+		memKeys = append(memKeys, mem)
+	}
+	sort.Ints(memKeys)
+	for _, mem := range memKeys {
+		list := byMem[mem]
+		sort.SliceStable(list, func(i, j int) bool { return list[i].off < list[j].off })
 		for i := 1; i < len(list); i++ {
 			if list[i-1].off+list[i-1].size > list[i].off {
 				p := "C02"
@@ -201,7 +237,8 @@ func (w *World) checkStep(prev, cur *snapshot, res StepResult, calls []simvk.Cal
 
 	// ---- C09: granularity pages ----
 	if g := w.cfg.Dev.Granularity; g > 1 {
-		for mem, list := range byMem {
+		for _, mem := range memKeys {
+			list := byMem[mem]
 			for i := 0; i < len(list); i++ {
 				for j := i + 1; j < len(list); j++ {
 					a, b := list[i], list[j]
@@ -354,6 +391,9 @@ func (w *World) checkStep(prev, cur *snapshot, res StepResult, calls []simvk.Cal
 				if m.Mapped() && b.MapReferences == 0 && !b.ExtraMapping {
 					fs.add("C14", "mapping-left-behind", "%s block id %d: m%d is still mapped on the device although there are no map references and no hysteresis mapping (after %q)", lname, b.ID, mid, op.String())
 				}
+				if b.ExtraMapping && !b.Mapped {
+					fs.add("C14", "hysteresis-mapping-without-mapped-memory", "%s block id %d (m%d) records a hysteresis mapping but holds no mapped pointer (after %q)", lname, b.ID, mid, op.String())
+				}
 				if want > 0 && !m.Mapped() {
 					fs.add("C14", "mapped-allocation-unmapped-on-device", "m%d has %d outstanding mappings but is not mapped on the device (after %q)", mid, want, op.String())
 				}
@@ -405,7 +445,11 @@ func (w *World) checkStep(prev, cur *snapshot, res StepResult, calls []simvk.Cal
 		}
 		// distinct pool ids
 		seen := map[int]int{}
-		for p, id := range cur.poolIDs {
+		for p := 0; p < maxPools; p++ {
+			id, ok := cur.poolIDs[p]
+			if !ok {
+				continue
+			}
 			if q, dup := seen[id]; dup {
 				a, b := p, q
 				if a > b {
@@ -520,8 +564,8 @@ func (w *World) checkStep(prev, cur *snapshot, res StepResult, calls []simvk.Cal
 				fs.add("C07", "move-size-mismatch", "move %d size %d but slot %d has size %d", i, mv.size, mv.src, w.slots[mv.src].Size())
 			}
 			// forward only
-			si, dj := w.blockIndex(cur, mv.srcMem), w.blockIndex(cur, mv.dstMem)
-			if si >= 0 && dj >= 0 && !(dj < si || (mv.srcMem == mv.dstMem && mv.dstOff < mv.srcOff)) {
+			si, dj := w.blockIndex(cur, mv.srcBlock), w.blockIndex(cur, mv.dstMem)
+			if si >= 0 && dj >= 0 && !(dj < si || (mv.srcBlock == mv.dstMem && mv.dstOff < mv.srcOff)) {
 				fs.add("C15", "move-not-forward", "move %d goes from block #%d offset %d to block #%d offset %d", i, si, mv.srcOff, dj, mv.dstOff)
 			}
 		}
